@@ -16,12 +16,17 @@ Theorem C02_job_usage : forall ops b j r,
 Proof. intros; apply job_usage_ok, BInv_run. Qed.
 Print Assumptions C02_job_usage.
 
-(** per job group, counting the jobs of all descendant groups: a row of job (b, j) counts for group g as often as g
-    occurs among the ancestors-or-self of the job's group ([anc_ids]; once — the ids of a chain are distinct) *)
+(** per job group, counting the jobs of all descendant groups: a row of job (b, j) counts for group g iff g is among
+    the ancestors-or-self of the job's group ([anc_ids], the rows of job_group_self_and_ancestors), and then once *)
 Theorem C02_group_usage : forall ops b g r,
   agg_value (agg_group (run ops)) [b; g; r] = group_usage (run ops) b g r.
 Proof. intros; apply group_usage_ok, BInv_run. Qed.
 Print Assumptions C02_group_usage.
+
+(** the ancestor-or-self ids of a group are pairwise distinct (no row of job_group_self_and_ancestors is doubled) *)
+Theorem C02_ancestors_distinct : forall ops b g, NoDup (anc_ids (run ops) b g).
+Proof. intros; apply anc_ids_nodup, BInv_run. Qed.
+Print Assumptions C02_ancestors_distinct.
 
 (** the batch is its root group 0 *)
 Theorem C02_batch_usage : forall ops b r,
